@@ -18,6 +18,8 @@ STRING_TYPE = "http://www.w3.org/2001/XMLSchema#string"
 FLOAT_TYPE = "http://www.w3.org/2001/XMLSchema#float"
 INTEGER_TYPE = "http://www.w3.org/2001/XMLSchema#integer"
 
+LANG_TAG_MARK = "@"
+
 
 def _add_prefix(unprefixed_elem, prefix):
     return prefix + ":" + unprefixed_elem
@@ -105,7 +107,7 @@ def is_a_correct_uri(target_uri, prefix_namespace_dict):
 
 
 def there_is_arroba_after_last_quotes(target_str):
-    if target_str.rfind(STARTING_CHAR_FOR_SHAPE_NAME) > target_str.rfind('"'):
+    if target_str.rfind(LANG_TAG_MARK) > target_str.rfind('"'):
         return True
     return False
 
